@@ -9,6 +9,8 @@ import (
 	"path/filepath"
 	"strconv"
 	"strings"
+
+	"golang.org/x/text/unicode/norm"
 )
 
 var extremeInts = []int64{math.MinInt64, math.MinInt64 + 1, -(1 << 32) - 1, -(1 << 32), -(1 << 32) + 1, -(1 << 31) - 1, -(1 << 31), -(1 << 31) + 1,
@@ -200,12 +202,57 @@ func runListCoverPass(tier string, seed int64, covSizes []int) {
 
 // ---- C14 ----------------------------------------------------------------
 
+// hiddenSpaces: characters whose compatibility decomposition CONTAINS U+0020 although they are not spaces
+// (spacing diacritics such as U+00B4, U+00A8, U+02DC, U+309B, U+FFE3): after NFKD they separate tokens
+var hiddenSpaces []string
+
+func loadHiddenSpaces() {
+	if hiddenSpaces != nil {
+		return
+	}
+	for _, cp := range pools.Decomposable {
+		d := norm.NFKD.String(string(rune(cp)))
+		if strings.Contains(d, " ") && d != " " {
+			hiddenSpaces = append(hiddenSpaces, string(rune(cp)))
+		}
+	}
+}
+
 var mixSeps = []string{" ", " ", " ", "\n", "\t", "\r\n", "\v", "\f", "\u0085", "\u1680", "\u2028", "\u2029", "\u3000", "\u00a0", "  ", " \n"}
 
 // runWhitespaceMix: list words joined by a mix of separators, so that the number of U+0020, the number of
 // whitespace-separated tokens and the number of fields disagree in every way (C14, C03)
 func runWhitespaceMix(seed int64, count int, langs []int64) {
 	r := newRng(seed, "wsmix")
+	loadHiddenSpaces()
+	// sentences in which a spacing diacritic sits inside a word or replaces a junction: the number of tokens of the
+	// NFKD form differs from the number of tokens of the raw text
+	for k := 0; k < count/3+30; k++ {
+		maybeCut()
+		lang := langs[r.intn(len(langs))]
+		l := listLang(lang)
+		n := []int{11, 12, 14, 15, 17, 18, 20, 21, 23, 24}[r.intn(10)]
+		idx := indicesOf(r.bytes(32))[:n]
+		ws := strings.Split(sentence(idx, l, " "), " ")
+		h := hiddenSpaces[r.intn(len(hiddenSpaces))]
+		p := r.intn(n)
+		switch r.intn(4) {
+		case 0: // inside a word
+			rs := []rune(ws[p])
+			c := r.intn(len(rs) + 1)
+			ws[p] = string(rs[:c]) + h + string(rs[c:])
+		case 1: // after a word
+			ws[p] += h
+		case 2: // before a word
+			ws[p] = h + ws[p]
+		case 3: // as a junction
+			if p+1 < n {
+				ws[p] = ws[p] + h + ws[p+1]
+				ws = append(ws[:p+1], ws[p+2:]...)
+			}
+		}
+		recCheck(strings.Join(ws, " "), lang, Event{"cls": "hiddenspace"})
+	}
 	for k := 0; k < count; k++ {
 		maybeCut()
 		lang := langs[r.intn(len(langs))]
@@ -240,6 +287,16 @@ func runWhitespaceMix(seed int64, count int, langs []int64) {
 }
 
 func invalidUTF8Shapes() []string {
+	out := invalidUTF8Short()
+	// runs of continuation bytes, of lead bytes, and a lead byte followed by a long run, at lengths around
+	// every plausible clipping / buffer boundary
+	for _, n := range []int{2, 15, 16, 31, 32, 33, 47, 48, 49, 50, 63, 64, 65, 127, 128, 129, 255, 256, 1000} {
+		out = append(out, strings.Repeat("\x80", n), strings.Repeat("\xbf\x9a", n/2+1), "\xe3"+strings.Repeat("\x81", n), strings.Repeat("\xf0", n))
+	}
+	return out
+}
+
+func invalidUTF8Short() []string {
 	return []string{"\x80", "\xbf", "\xc3", "\xe3\x81", "\xf0\x9f\x98", "\xc0\xaf", "\xe0\x80\xaf", "\xed\xa0\x80", "\xed\xbf\xbf",
 		"\xf4\x90\x80\x80", "\xf8\x88\x80\x80\x80", "\xff", "\xfe\xff", "a\x00b", "\x00", "abandon \xff abandon", "\xe3\x81\x82\xe3\x81"}
 }
@@ -280,7 +337,11 @@ func runRobust(tier string, seed int64, phase string) {
 	// ill-formed UTF-8 inside otherwise valid sentences: as a whole token, glued to a word, inside a multi-byte word
 	for _, lang := range all10 {
 		idx := indicesOf(r.bytes(sizes[r.intn(5)]))
-		for _, junk := range invalidUTF8Shapes() {
+		shapes := invalidUTF8Shapes()
+		for si, junk := range shapes {
+			if tier == "quick" && si >= 17 && (si+lang)%5 != 0 { // the long runs: a fifth per language in the quick tier
+				continue
+			}
 			maybeCut()
 			ws := strings.Split(sentence(idx, lang, " "), " ")
 			p := r.intn(len(ws))
@@ -293,9 +354,10 @@ func runRobust(tier string, seed int64, phase string) {
 				c[p] = ws[p][:len(ws[p])-1] + junk // cuts the last character of the word
 				recCheck(strings.Join(c, " "), int64(lang), Event{"cls": "badutf8"})
 			}
-			c[p] = strings.Repeat(ws[p], 3000) // one very long token
-			recCheck(strings.Join(c, " "), int64(lang), Event{"cls": "longtoken"})
 		}
+		ws := strings.Split(sentence(idx, lang, " "), " ")
+		ws[r.intn(len(ws))] = strings.Repeat(ws[0], 3000) // one very long token
+		recCheck(strings.Join(ws, " "), int64(lang), Event{"cls": "longtoken"})
 	}
 	runWhitespaceMix(seed, map[string]int{"quick": 600, "thorough": 10000}[tier], langs)
 	// fuzzed bytes
